@@ -177,6 +177,13 @@ pub struct MuxScenario {
     /// The call it hits must fail as a whole (a rejected call leaves no trace); later calls work.
     #[serde(default)]
     pub fault: Option<(u64, crate::simdisk::Fault)>,
+    /// length of the outage in consecutive stream calls (0 and 1 both mean a single call)
+    #[serde(default)]
+    pub fault_len: u8,
+    /// aim the fault at the n-th stream call of API call `.0` (1 = first call after write_start)
+    /// instead of a global stream-call number
+    #[serde(default)]
+    pub fault_api: Option<(u32, u64)>,
 }
 
 // -------------------------------------------------------------------------------------------
@@ -706,20 +713,26 @@ pub fn gen_mux(r: &mut Rng, o: &GenOpts) -> MuxScenario {
         3 => (r.below(5000), r.below(300_000)),
         _ => (0, 0),
     };
-    // transient sink fault (valid-domain histories only; C17 plants its own)
-    let fault = if !o.hostile && r.chance(1, 10) {
-        // a third of the faults aim at the tail of the history (write_end makes several dozen
-        // stream calls per track; the exact count is only known after a run)
-        let seq = if r.chance(1, 3) { 2 * ops.len() as u64 + r.below(40 * (1 + ntracks as u64)) } else { r.below(3 * ops.len() as u64 + 16) };
+    // transient sink fault (valid-domain histories only; C17 plants its own): one call or an
+    // outage of two or three consecutive stream calls; a third of them aimed into write_end
+    // (the flushes of the pending chunks and the mdat size patch come first in that call)
+    let (fault, fault_len, fault_api) = if !o.hostile && r.chance(1, 10) {
+        let seq = r.below(3 * ops.len() as u64 + 16);
         let f = match r.below(4) {
             0 => crate::simdisk::Fault::Zero,
             1 => crate::simdisk::Fault::Err(crate::simdisk::ErrK::StorageFull),
             2 => crate::simdisk::Fault::Err(crate::simdisk::ErrK::Other),
             _ => crate::simdisk::Fault::Err(crate::simdisk::ErrK::TimedOut),
         };
-        Some((seq, f))
+        let len = match r.below(10) {
+            0..=6 => 1u8,
+            7 | 8 => 2,
+            _ => 3,
+        };
+        let api = if r.chance(1, 3) { Some((ops.len() as u32, r.below(2 * ntracks as u64 + 12))) } else { None };
+        (Some((seq, f)), len, api)
     } else {
-        None
+        (None, 0, None)
     };
     let mut sc = MuxScenario {
         cfg,
@@ -728,6 +741,8 @@ pub fn gen_mux(r: &mut Rng, o: &GenOpts) -> MuxScenario {
         io,
         preexisting,
         fault,
+        fault_len,
+        fault_api,
     };
     if sc.fault.is_some() && r.chance(1, 2) {
         append_retry_tail(&mut sc, r);
